@@ -50,6 +50,9 @@ var mapKeyTypes = []descriptorpb.FieldDescriptorProto_Type{
 	descriptorpb.FieldDescriptorProto_TYPE_BOOL, descriptorpb.FieldDescriptorProto_TYPE_SFIXED64,
 }
 
+// extraCommentShapes: set by the print.file stream
+var extraCommentShapes = false
+
 type gmsg struct {
 	name   string
 	path   []string // relative to the package
@@ -152,6 +155,18 @@ func (g *fgen) loc(path []int32, comment string, lines int32) {
 	if comment != "" {
 		g.line += int32(strings.Count(comment, "\n"))
 		l.LeadingComments = proto.String(comment)
+	}
+	// Trailing and detached comments: j5s-compiled descriptors carry leading comments only, and these
+	// fabricated shapes are not all what a parser attributes; they exercise the correspondence of
+	// the printer / grammar models (print.file), not the property oracle (print.reparse).
+	if extraCommentShapes && !g.clean && g.h.Chance(1, 8) {
+		// trailing comment: one line (printed in line) or several (printed below the element)
+		l.TrailingComments = proto.String(vh.Pick(g.h, []string{" trailing\n", " trailing one\n trailing two\n", "x\n", " t1\n\n t3\n"}))
+		g.feat["trailing-comment"] = true
+	}
+	if extraCommentShapes && !g.clean && g.h.Chance(1, 10) {
+		l.LeadingDetachedComments = vh.Pick(g.h, [][]string{{" detached\n"}, {" d1\n", " d2 line1\n d2 line2\n"}, {"\n"}})
+		g.feat["detached-comment"] = true
 	}
 	if lines <= 1 {
 		l.Span = []int32{g.line, 0, 10}
